@@ -143,14 +143,16 @@ fn median(mut price_list: Vec<Price>) -> Option<Price> {
     let sum = half_high
         .checked_add(half_low)
         .expect("can't fail as both operands are <= MAX/2");
-    // If `higher_price` and `lower_price` are both odd, we rounded down twice when halving them,
-    // so add 1 to the sum.
-    let median = if higher_price.get() % 2 == 1 && lower_price.get() % 2 == 1 {
-        sum.checked_add(Price::new(1))
-            .expect("can't fail as we rounded down twice while halving the prices")
-    } else {
-        sum
-    };
+    // Halving rounds towards zero. If `higher_price` and `lower_price` are both odd and have the
+    // same sign, we rounded towards zero twice, so move the sum one step away from zero again; if
+    // their signs differ the two roundings cancel out.
+    let correction = (higher_price.get() % 2)
+        .checked_add(lower_price.get() % 2)
+        .and_then(|remainders| remainders.checked_div(2))
+        .expect("can't fail as both remainders are in -1..=1");
+    let median = sum
+        .checked_add(Price::new(correction))
+        .expect("can't fail as we rounded towards zero twice while halving the prices");
     Some(median)
 }
 
